@@ -77,6 +77,7 @@ def quick_corpus():
         C('NM', 2, 4, 'std', std='c++20'), C('TM', 2, 4, 5, std='c++20'),
         C('NM', 2, 2, 0, std='c++11', sizet='u32'), C('TR', 0, 2, 8, std='c++14'),
         C('TM', 2, 4, 0, std='c++2b'), C('MO', 0, 3, 'std', std='c++20'),
+        C('NM', 2, 4, 3), C('MO', 0, 2, 6),
     ]
 
 
@@ -174,6 +175,42 @@ def _worker(job):
         import traceback
         return {'cfg': cfg.name, 'ok': False, 'broken': 'internal error: ' + traceback.format_exc()[-3000:],
                 'wall': time.time() - t0}
+
+
+def _worker_multi(job):
+    parts, cfg = job
+    t0 = time.time()
+    out = {}
+    try:
+        eng = load_engine(cfg)
+    except common.AnalysisBroken as e:
+        return {p: {'cfg': cfg.name, 'ok': False, 'broken': str(e), 'wall': 0} for p in parts}
+    except Exception:
+        import traceback
+        tb = traceback.format_exc()[-3000:]
+        return {p: {'cfg': cfg.name, 'ok': False, 'broken': 'internal error: ' + tb, 'wall': 0} for p in parts}
+    for part in parts:
+        t1 = time.time()
+        try:
+            m = importlib.import_module('svlib.rules.' + part)
+            res = m.analyse_tu(eng, cfg)
+            out[part] = {'cfg': cfg.name, 'ok': True, 'res': res, 'wall': time.time() - t1}
+        except common.AnalysisBroken as e:
+            out[part] = {'cfg': cfg.name, 'ok': False, 'broken': str(e), 'wall': time.time() - t1}
+        except Exception:
+            import traceback
+            out[part] = {'cfg': cfg.name, 'ok': False,
+                         'broken': 'internal error: ' + traceback.format_exc()[-3000:], 'wall': time.time() - t1}
+    return out
+
+
+def run_parts_over(cfgs, parts, jobs=None):
+    """Run several rule parts over every cfg, sharing one engine (IR, oracle, summaries) per TU.
+    -> {part: [result per cfg]}"""
+    jobs_list = [(tuple(parts), c) for c in cfgs]
+    with ProcessPoolExecutor(max_workers=min(jobs or common.JOBS, len(jobs_list) or 1)) as ex:
+        rows = list(ex.map(_worker_multi, jobs_list))
+    return {p: [r[p] for r in rows] for p in parts}
 
 
 def run_over(cfgs, modname, fn, extra=(), jobs=None):
